@@ -503,6 +503,10 @@ func ruleNoAppendOntoCallerStorage(p *Prog, c *Check, rule string) {
 		}
 	}
 	n, bad := 0, 0
+	isMutator := map[*ssa.Function]bool{}
+	for _, m := range p.Roots().Mutator {
+		isMutator[m] = true
+	}
 	for _, fn := range p.AllFuncs() {
 		if fn.Signature.Recv() == nil {
 			continue
@@ -526,8 +530,9 @@ func ruleNoAppendOntoCallerStorage(p *Prog, c *Check, rule string) {
 			case EElem, ECopy, EExtern:
 				// the elements of a slice the caller handed in are the caller's (and every other packet's that was
 				// given the same slice): wiping or patching them in place changes values behind their backs —
-				// `for i := range p.password { p.password[i] = 0 }` before storing the new one
-				if w.Target.Kind != PParamR {
+				// `for i := range p.password { p.password[i] = 0 }` before storing the new one.  Decided for the
+				// exported mutators (decoders are R14.5's business: what they write was allocated by the decode)
+				if w.Target.Kind != PParamR || !isMutator[fn] {
 					continue // the field's own cell, not what it points to
 				}
 				n++
